@@ -14,8 +14,14 @@ def render_events(events):
 
     def flush():
         if recvs:
-            out.append("      recv sizes asked/got: " + " ".join(
-                "%d/%s" % (a, {-1: "EOF", -2: "TIMEOUT", -3: "RESET"}.get(g, g)) for a, g in recvs))
+            items = []
+            for a, g in recvs:
+                t = "%d/%s" % (a, {-1: "EOF", -2: "TIMEOUT", -3: "RESET"}.get(g, g))
+                if items and items[-1][0] == t:
+                    items[-1][1] += 1
+                else:
+                    items.append([t, 1])
+            out.append("      recv sizes asked/got: " + " ".join(t if n == 1 else "%s(x%d)" % (t, n) for t, n in items))
             del recvs[:]
 
     for ev in events:
